@@ -1,6 +1,8 @@
 """C01 bounded stand-in: SWC write -> read round trip on the real library.
 
 Every case writes a well-formed tree with ``Tree.to_swc`` (string or file), reads the
+written rows with str.split (row formatter: id/pid shifted, root pid kept at -1; a clause
+the text itself violates is charged to ``to_swc`` and not again to the reader), reads the
 text back with ``Tree.from_swc`` (path / StringIO / BytesIO) and compares with the
 property's own right-hand side: same node count, same parent table, same types,
 x/y/z/r == float32(float(format(v, '.4f'))), comments back in order with the same
@@ -13,6 +15,7 @@ import itertools
 import json
 import os
 import random
+import re
 import shutil
 
 import numpy as np
@@ -117,6 +120,40 @@ def _check_written_text(rep, spec, text):
     return True
 
 
+def _check_written_rows(rep, spec, text, x32):
+    """Writer-side reading of the data rows (str.split + int/float only): row i must say
+    id = i+off, parent = -1 for the root else p+off, the type, and the 4-decimal floats.
+    Returns the set of round-trip clauses already violated by the text itself."""
+    pid, types, off = list(spec["pid"]), list(spec["type"]), spec["off"]
+    n = len(pid)
+    rows = [ln.split() for ln in text.split("\n") if ln.strip() and not ln.lstrip().startswith("#")]
+    bad = set()
+    if len(rows) != n or any(len(r) != 7 for r in rows):
+        rep.add("to_swc", "node-count", spec, f"{len(rows)} data lines with {sorted(set(len(r) for r in rows))} fields", f"{n} data lines with 7 fields")
+        return {"node-count", "parents", "types", "coordinates-4-decimals"}
+    try:
+        got_id, got_pid, got_t = [int(r[0]) for r in rows], [int(r[6]) for r in rows], [int(r[1]) for r in rows]
+        got_f = {k: [np.float32(float(r[2 + j])) for r in rows] for j, k in enumerate(("x", "y", "z", "r"))}
+    except ValueError as e:
+        rep.add("to_swc", "node-count", spec, f"non-numeric field in the data lines: {e}", "7 numeric fields per line")
+        return {"node-count", "parents", "types", "coordinates-4-decimals"}
+    want_id = [i + off for i in range(n)]
+    want_pid = [-1 if p == -1 else p + off for p in pid]
+    if got_id != want_id or got_pid != want_pid:
+        rep.add("to_swc", "parents", spec, dict(id=got_id, pid=got_pid), dict(id=want_id, pid=want_pid))
+        bad.add("parents")
+    if got_t != [int(v) for v in types]:
+        rep.add("to_swc", "types", spec, got_t, types)
+        bad.add("types")
+    for k in ("x", "y", "z", "r"):
+        want = [_fmt4(v) for v in x32[k]]
+        if not np.array_equal(np.array(got_f[k], dtype=np.float32), np.array(want, dtype=np.float32)):
+            rep.add("to_swc", "coordinates-4-decimals", spec, {k: [repr(float(v)) for v in got_f[k]]}, {k: [repr(float(v)) for v in want]})
+            bad.add("coordinates-4-decimals")
+            break
+    return bad
+
+
 # ---------------------------------------------------------------- one round trip
 
 def check_roundtrip(rep, spec, base):
@@ -158,6 +195,7 @@ def check_roundtrip(rep, spec, base):
         return
 
     text_ok = _check_written_text(rep, spec, text)
+    text_bad = _check_written_rows(rep, spec, text, x32)  # clauses the text itself already violates (charged to the writer)
 
     try:
         if spec["src"] == "path":
@@ -171,24 +209,27 @@ def check_roundtrip(rep, spec, base):
             t2 = Tree.from_swc(io.BytesIO(text.encode("utf-8")))
     except Exception as e:
         cause = e.__cause__
-        rep.add("Tree.from_swc", "operation-raises", spec, f"{type(e).__name__}: {e} (cause: {type(cause).__name__}: {cause})", "no exception")
+        msg = re.sub(r" at 0x[0-9a-fA-F]+", "", f"{type(e).__name__}: {e} (cause: {type(cause).__name__}: {cause})").replace(base, "<scratch>")
+        if not text_bad:
+            rep.add("Tree.from_swc", "operation-raises", spec, msg, "no exception")
         return
 
     # node-count
     n2 = t2.number_of_nodes()
     if n2 != n or any(len(t2.get_ndata(k)) != n for k in ("id", "type", "x", "y", "z", "r", "pid")):
-        rep.add("Tree.from_swc", "node-count", spec, n2, n)
+        if "node-count" not in text_bad:
+            rep.add("Tree.from_swc", "node-count", spec, n2, n)
         return
     # parents (ids are positions again, parent of every node unchanged)
     got_id, got_pid = [int(v) for v in t2.id()], [int(v) for v in t2.pid()]
-    if got_id != list(range(n)) or got_pid != pid:
+    if (got_id != list(range(n)) or got_pid != pid) and "parents" not in text_bad:
         rep.add("Tree.from_swc", "parents", spec, dict(id=got_id, pid=got_pid), dict(id=list(range(n)), pid=pid))
     # types
     got_t = [int(v) for v in t2.type()]
-    if got_t != [int(v) for v in types]:
+    if got_t != [int(v) for v in types] and "types" not in text_bad:
         rep.add("Tree.from_swc", "types", spec, got_t, types)
     # coordinates-4-decimals
-    for k in ("x", "y", "z", "r"):
+    for k in (("x", "y", "z", "r") if "coordinates-4-decimals" not in text_bad else ()):
         want = np.array([_fmt4(v) for v in x32[k]], dtype=np.float32)
         got = np.asarray(t2.get_ndata(k))
         if got.dtype != np.float32 or not np.array_equal(got, want):
